@@ -211,6 +211,21 @@ def run(chk, tier):
     chk.sample({"rule": "unit-width", "fn": "encode_collection_delimited", "literals": lits})
     sep_writes = [x for c, x in H.calls(h["body"]) if c and c.endswith("write_all")]
     chk.expect(len(sep_writes) == 1 and any(l == "\\" or l == "92" for l in lits), "unit-width", "encode_collection_delimited", "separator", "one write of a backslash between items", lits, loc=C.fn_loc(h))
+    # the count it returns is what it wrote: the separator byte is counted in the block that writes it, every element count is accumulated, Ok(acc) is returned
+    # (encode_primitive_element decides on the padding byte from the parity of this count)
+    counted = False
+    for x, anc in H.walk_anc(h["body"]):
+        if sep_writes and x is sep_writes[0]:
+            blk = None
+            for a in reversed(anc):
+                if H.is_node(a) and H.kind(a) == "block" and a[2]:
+                    blk = a
+                    break
+            counted = blk is not None and any(H.kind(y) == "assignop" and y[2] in ("Add", "AddAssign") and H.path_of(y[3]) == "acc" and H.int_lit(y[4]) == 1 for s_ in blk[2] for y in H.walk(s_))
+    elem_acc = [y for y in H.walk(h["body"]) if H.kind(y) == "assignop" and y[2] in ("Add", "AddAssign") and H.path_of(y[3]) == "acc" and "encode_element_fn(" in H.show(y[4], 8)]
+    ret_acc = "core::result::Result::Ok(acc)" in H.show(h["body"], 6)
+    chk.expect(counted and len(elem_acc) == 1 and ret_acc, "unit-width", "encode_collection_delimited", "count-equals-bytes-written",
+               "acc += encode_element_fn(..)?; separator write paired with acc += 1; Ok(acc)", {"separator_counted": counted, "element_counts": len(elem_acc), "returns_acc": ret_acc}, loc=C.fn_loc(h))
 
     # ---------- rule 4: even rounding
     chk.rule("even-round", "every copy of round-up-to-even is `(x + 1) & !1`; StatefulEncoder routes every defined length through it")
